@@ -206,8 +206,39 @@ func TestVerifReplay(t *testing.T) {
     if not fails:
         ck.record('faults', 'proved', '%d paths over %d distinct read schedules (%d with a fault): error <=> the source failed before a complete acceptable draw; no output with an error; group operations only on complete draws; short reads completed; nil source refused' % (
             npaths, len(scheds), len(nontrivial)), rule, secs)
+    # long runs of rejected candidates (beyond the symbolic bound on the number of candidates): k rejected 32-byte draws, then the
+    # source ends, fails mid-draw, or delivers an acceptable value; error exactly when no acceptable complete draw arrived
+    src_many = '''package sm2
+import ("testing"; "io"; "bytes")
+type seqReader struct{ b []byte; off int }
+func (r *seqReader) Read(p []byte) (int, error) { if r.off >= len(r.b) { return 0, io.EOF }; n := copy(p, r.b[r.off:]); r.off += n; return n, nil }
+func TestVerifReplay(t *testing.T) {
+	priv := make([]byte, 32); priv[31] = 7
+	e := make([]byte, 32); e[0] = 1
+	good := bytes.Repeat([]byte{0x11}, 32)
+	for _, rejected := range [][]byte{bytes.Repeat([]byte{0xff}, 32), make([]byte, 32)} {
+		for k := 0; k <= 40; k++ {
+			for _, tail := range [][]byte{nil, good[:17], good} {
+				stream := append(bytes.Repeat(rejected, k), tail...)
+				wantErr := len(tail) != 32
+				d, x, y, err := GenerateKey(&seqReader{b: stream})
+				if wantErr && err == nil { t.Fatalf("GenerateKey: %d rejected candidates then %d more bytes: no error, key %x", k, len(tail), d) }
+				if wantErr && (x != nil || y != nil) { t.Fatalf("GenerateKey: error together with a public key") }
+				if !wantErr && (err != nil || !bytes.Equal(d, good)) { t.Fatalf("GenerateKey: %d rejected candidates then a good one: err=%v key=%x", k, err, d) }
+				r, s, err := SignHashed(&seqReader{b: stream}, priv, e)
+				if wantErr && err == nil { t.Fatalf("SignHashed: %d rejected nonce candidates then %d more bytes: no error, r=%x s=%x", k, len(tail), r, s) }
+				if wantErr && (r != nil || s != nil) { t.Fatalf("SignHashed: error together with a signature") }
+				if !wantErr && err != nil { t.Fatalf("SignHashed: %d rejected candidates then a good one: %v", k, err) }
+			}
+		}
+	}
+}'''
+    okm, outm, pathm = ck.go_test('sm2', src_many, name='many_rejections', timeout=600)
+    if okm is False:
+        ck.record('faults[many-rejections]', 'violated', 'after a long run of rejected candidates the outcome is wrong: ' + (outm or '')[-300:].replace('\n', ' '))
+        ck.violation('many-rejections', 'key generation / signing mishandle a source that ends or fails after many rejected candidates', pathm)
     # a few concrete schedules on the real build as validation of the stub/ReadFull model
-    val = 0
+    val = 1 if okm is True else 0
     for what, sched in (('GenerateKey', [(32, 16, None), (16, 16, None)]), ('SignHashed', [(32, 0, 'injected reader failure')]), ('SignHashed', [(32, 16, 'EOF')]),
                         ('GenerateKey', [(32, 32, 'injected reader failure')])):
         ok, out, path = replay(what, sched)
